@@ -357,6 +357,7 @@ GEV = [
     ("add_units", "G1", "u4"), ("remove_units", "G1", "u4"), ("remove_units", "G1", "g1a"), ("add_units", "G3", "u2"),
     ("add_groups", "G3", "G1"), ("remove_groups", "G3", "G1"), ("remove_groups", "G2", "G1"),
     ("add_groups", "G1", "G2"), ("add_groups", "G1", "G1"), ("add_groups2", "G3", "G1", "G0"),
+    ("add_groups", "G3", "G2"), ("add_groups", "G1", "G3"),  # together with 'G2 using G1' these close a cycle of length 3
     ("members",), ("members_of", "G2"), ("members_of", "S1"),
     ("define", "@group G1\n    g1c = 19 * ua\n@end"),
 ]
@@ -640,7 +641,7 @@ MANIFEST = {
     "text": "Every multiplicative canonical unit x 8 system settings: get_base_units(system=), to_base_units and ito_base_units under default_system must use only the system's declared base units plus the root units "
     "it does not replace, preserve dimensionality and exact physical value (Fraction registry), be idempotent and leave the operand alone; all 2-factor compounds over 10 units; 7 generated systems covering every rule form (bare rule naming a power of a root unit with exponent 2, 3, -1; 'new : old' with a compound new unit; two rules at once) x 8 units and all their 2-factor compounds, by name and as default system; every ordered triple of "
     "default-system changes is effective on the next query even after queries that named the other systems; get_compatible_units(u, G) for every unit x every group and system equals members(G) of the same dimension; sys.<S>.<name> resolves the system variant. "
-    "Histories: all sequences up to depth 3 (4) over 23 events (default-system settings, base-unit queries under the default and under a named system, add/remove units and groups including a self-cycle and an indirect cycle, membership queries, defining a "
+    "Histories: all sequences up to depth 3 (4) over 25 events (default-system settings, base-unit queries under the default and under a named system, add/remove units and groups including a self-cycle, a cycle of length 2 and one of length 3, membership queries, defining a "
     "unit into a group) on a generated 3-group / 2-system registry; in every state the members of all groups and systems, restricted listings and base-unit answers are compared with a reference closure model "
     "and a fresh registry; cyclic attempts must raise and change nothing; every step is run under a 3 s alarm so that a non-terminating closure is reported, not waited for.",
     "note": "Trusted: R1/R6 (system rule inversion is NOT re-derived: only allowed units, value preservation and idempotence are asserted, which pins the factor). Compounds with more than 2 factors, generated "
